@@ -11,6 +11,7 @@ import (
 	"verifharness/props/c11"
 	"verifharness/props/c12"
 	"verifharness/props/c16"
+	"verifharness/props/c20"
 	"verifharness/props/ws"
 )
 
@@ -23,6 +24,7 @@ var drivers = map[string]runner{
 	"C14": ws.RunFor("C14"),
 	"C15": ws.RunFor("C15"),
 	"C16": c16.Run,
+	"C20": c20.Run,
 }
 
 func main() {
